@@ -3,6 +3,7 @@ package main
 import (
 	"fmt"
 	"go/ast"
+	"go/constant"
 	"go/token"
 	"go/types"
 	"sort"
@@ -1096,7 +1097,7 @@ func ruleErrorsConsumed(c *Ctx, prop string) {
 								continue
 							}
 							failEdge := cmp.Op == token.NEQ // true edge is the failing one for !=
-							if c.edgeRejects(iff, failEdge) || c.errorFlowsToReturn(ev, f) || c.failEdgeRetested(iff, failEdge, ev) {
+							if c.edgeRejects(iff, failEdge) || c.errorFlowsToReturn(ev, f) || c.failEdgeRetested(iff, failEdge, ev) || c.failEdgeReturnsFlag(iff, failEdge, f, 0) {
 								continue
 							}
 							per[fname(f)]++
@@ -2019,6 +2020,112 @@ func (c *Ctx) failEdgeRetested(iff *ssa.If, failEdge bool, ev ssa.Value) bool {
 		return false
 	}
 	return false
+}
+
+// failEdgeReturnsFlag: the failing edge runs (through jumps) into a return of the unexported function f whose bool
+// result is the constant false, and every caller of f (static calls only, f is not used as a value) tests that
+// result and refuses on its false edge - or passes the failure on the same way. The failure is reported, by the
+// caller ("ok" results instead of errors the caller would replace anyway).
+func (c *Ctx) failEdgeReturnsFlag(iff *ssa.If, failEdge bool, f *ssa.Function, depth int) bool {
+	s := iff.Block().Succs[1]
+	if failEdge {
+		s = iff.Block().Succs[0]
+	}
+	return c.blockReturnsFlag(s, f, depth)
+}
+
+func (c *Ctx) blockReturnsFlag(s *ssa.BasicBlock, f *ssa.Function, depth int) bool {
+	if depth > 2 || f.Parent() != nil || f.Object() == nil || f.Object().Exported() || f.Signature.Recv() != nil {
+		return false
+	}
+	var ret *ssa.Return
+	for d := 0; d < 4 && len(s.Instrs) > 0; d++ {
+		if j, ok := s.Instrs[len(s.Instrs)-1].(*ssa.Jump); ok && len(s.Instrs) == 1 {
+			_ = j
+			s = s.Succs[0]
+			continue
+		}
+		if r, ok := s.Instrs[len(s.Instrs)-1].(*ssa.Return); ok && len(s.Instrs) == 1 {
+			ret = r
+		}
+		break
+	}
+	if ret == nil {
+		return false
+	}
+	slot := -1
+	for j, r := range ret.Results {
+		if k, ok := r.(*ssa.Const); ok && k.Value != nil && k.Value.Kind() == constant.Bool && !constant.BoolVal(k.Value) {
+			if slot >= 0 {
+				return false
+			}
+			slot = j
+		}
+	}
+	if slot < 0 {
+		return false
+	}
+	node := c.cg.Nodes[f]
+	if node == nil || len(node.In) == 0 {
+		return false
+	}
+	for _, g := range c.libFns {
+		for _, blk := range g.Blocks {
+			for _, in := range blk.Instrs {
+				if _, isDbg := in.(*ssa.DebugRef); isDbg {
+					continue
+				}
+				for _, op := range in.Operands(nil) {
+					if *op == ssa.Value(f) {
+						if cl, isCall := in.(*ssa.Call); !isCall || cl.Common().Value != ssa.Value(f) {
+							return false
+						}
+					}
+				}
+			}
+		}
+	}
+	for _, e := range node.In {
+		call, ok := e.Site.(*ssa.Call)
+		if !ok || call.Common().StaticCallee() != f {
+			return false
+		}
+		flag := resultOfCall(call, slot)
+		if flag == nil {
+			return false
+		}
+		tested := false
+		for _, r := range *flag.Referrers() {
+			var iff2 *ssa.If
+			failTrue := false
+			switch x := r.(type) {
+			case *ssa.DebugRef:
+				continue
+			case *ssa.If:
+				iff2 = x
+			case *ssa.UnOp:
+				if x.Op != token.NOT {
+					return false
+				}
+				for _, rr := range *x.Referrers() {
+					if i2, ok := rr.(*ssa.If); ok {
+						iff2, failTrue = i2, true
+					}
+				}
+			}
+			if iff2 == nil {
+				return false
+			}
+			if !c.edgeRejects(iff2, failTrue) && !c.failEdgeReturnsFlag(iff2, failTrue, call.Parent(), depth+1) {
+				return false
+			}
+			tested = true
+		}
+		if !tested {
+			return false
+		}
+	}
+	return true
 }
 
 // concatDelegates: every success return of Concat.Apply is the inputs list itself under len(inputs) == 1, or the
